@@ -541,6 +541,7 @@ async fn run_async(profile: &Profile, cfg: ClusterCfg) -> ClusterOutcome {
     }
     observer.borrow_mut().step();
     observer.borrow().check_single_chain();
+    observer.borrow().check_vote_rules(&cfg.stakes);
 
     let final_slots = timeline.last().map(|t| t.1.clone()).unwrap_or_default();
     {
